@@ -13,7 +13,7 @@ use ciphercore_base::slices::slice_index;
 #[kani::stub(std::backtrace::Backtrace::capture, no_backtrace)]
 #[kani::stub(alloc::fmt::format, no_format)]
 #[kani::stub(anyhow::__private::format_err, error_opaque)]
-fn broadcast_shapes_numpy() {
+pub fn broadcast_shapes_numpy() {
     let r1: usize = kani::any();
     let r2: usize = kani::any();
     kani::assume(r1 >= 1 && r1 <= 2 && r2 >= 1 && r2 <= 2);
@@ -50,7 +50,7 @@ fn broadcast_shapes_numpy() {
 /// number_to_index / index_to_number are inverse on in-range numbers; indices stay in bounds
 #[kani::proof]
 #[kani::unwind(5)]
-fn index_roundtrip() {
+pub fn index_roundtrip() {
     let r: usize = kani::any();
     kani::assume(r >= 1 && r <= 3);
     let d: [u64; 3] = kani::any();
@@ -74,7 +74,7 @@ fn index_roundtrip() {
 #[kani::stub(std::backtrace::Backtrace::capture, no_backtrace)]
 #[kani::stub(alloc::fmt::format, no_format)]
 #[kani::stub(anyhow::__private::format_err, error_opaque)]
-fn inverse_permutation_total() {
+pub fn inverse_permutation_total() {
     let n: usize = kani::any();
     kani::assume(n >= 1 && n <= 4);
     let raw: [u64; 4] = kani::any();
@@ -115,7 +115,7 @@ macro_rules! slice2 {
         #[kani::stub(std::backtrace::Backtrace::capture, no_backtrace)]
         #[kani::stub(alloc::fmt::format, no_format)]
         #[kani::stub(anyhow::__private::format_err, error_opaque)]
-        fn $name() {
+        pub fn $name() {
             let d0: u64 = kani::any();
             let d1: u64 = kani::any();
             kani::assume(d0 >= 1 && d0 <= 3 && d1 >= 1 && d1 <= 3);
